@@ -434,6 +434,53 @@ def observe(case, bnd=None, want_integrals=True, grid=None, argbuf=None):
     return out
 
 
+def caller_mutation(g, c, argbuf, ab):
+    """lesson (j): after the step the CALLER writes into the objects it passed earlier (start / end views, level vector, the
+    constructor's a / b arrays) WITHOUT passing them again; the grid must behave as if it had received values.  Returns the list of
+    leaks; the caller's objects and the grid's area are restored afterwards."""
+    import numpy as np
+    lvc = [int(l) for l in c['lv']]
+    s0 = [float(F(x)) for x in c['s']]
+    e0 = [float(F(x)) for x in c['e']]
+    a0 = [float(F(x)) for x in c['a']]
+    b0 = [float(F(x)) for x in c['b']]
+    leaks = []
+
+    def answers():
+        try:
+            return (_state(g, lvc), [tuple(int(i) for i in ix) for ix in g.get_indexlist()] if int(g.get_num_points()) <= 3000 else None,
+                    [bool(x) for x in g.get_boundaries()])
+        except Exception as ex:
+            return ('raises', type(ex).__name__)
+    before = answers()
+    argbuf['box'][...] += 7.0
+    argbuf['lv'][:] += 1
+    if answers() != before:
+        leaks.append('area-arguments')
+    argbuf['box'][0, :] = s0
+    argbuf['box'][1, :] = e0
+    argbuf['lv'][:] = lvc
+    if isinstance(ab[0], np.ndarray):
+        ab[0][...] -= 5.0
+        ab[1][...] += 5.0
+        try:
+            g.setCurrentArea(None, None, lvc)      # the whole DOMAIN the grid was constructed with
+            pts = g.getPoints()
+            lo = [min(p[d] for p in pts) for d in range(len(lvc))] if pts else a0
+            hi = [max(p[d] for p in pts) for d in range(len(lvc))] if pts else b0
+            if any(l < x - 1e-9 * (y - x) for l, x, y in zip(lo, a0, b0)) or any(h > y + 1e-9 * (y - x) for h, x, y in zip(hi, a0, b0)):
+                leaks.append('domain')
+        except Exception as ex:
+            leaks.append('domain:raises %s' % type(ex).__name__)
+        ab[0][...] = a0
+        ab[1][...] = b0
+    try:
+        g.setCurrentArea(argbuf['s'], argbuf['e'], argbuf['lv'])     # back to the area of this step
+    except Exception:
+        pass
+    return leaks
+
+
 def steps_of(hist):
     """flat per-step cases of a history (one Grid object, consecutive sub-boxes / level vectors); steps with obj=1
     run on the second object (same class and flags, domain a2/b2)"""
@@ -505,6 +552,8 @@ def impl_run(hist):
         out = observe(c, grid=g[k], argbuf=argbuf)
         if twin and g_on[k] is not None:
             out['on'] = observe(dict(c, observers=False, alias=False), bnd=True, want_integrals=False, grid=g_on[k], argbuf=argbuf)
+        if shared and c.get('jmut') and 'coords' in out and 'exc' not in out and c['fam'] not in HIER:
+            out['jleak'] = caller_mutation(g[k], c, argbuf, abs_[k])
         for (a, b), (sa, sb) in zip(abs_, ab_snap):      # the constructor's arguments belong to the caller as well
             if not _same(a, sa) or not _same(b, sb):
                 out.setdefault('mutated', []).append(['history', 'a/b of the constructor', str((sa, sb))[:80], str((a, b))[:80]])
@@ -678,6 +727,8 @@ def gen_case(rng, tier):
         if rng.random() < 0.12 and fam not in HIER:
             st['none'] = True
             st['s'], st['e'] = [fs(d[0]) for d in dd], [fs(d[1]) for d in dd]
+        if hist.get('args') == 'shared' and rng.random() < 0.6:
+            st['jmut'] = True      # afterwards the caller writes into the objects it passed (lesson (j))
         if rng.random() < 0.3:
             st['fs'] = rng.choice([-60, -20, 30])     # magnitude of the integrand
         if rng.random() < 0.25:
@@ -754,6 +805,45 @@ def big_cases(rng):
         h['steps'] = steps
         out.append(h)
     return out
+
+
+GATE_SCOPE = {'sparseSpACE/Grid.py': ['Grid', 'Grid1d', 'MixedGrid', 'BasisGrid', 'TrapezoidalGrid', 'TrapezoidalGrid1D', 'SimpsonGrid',
+                                        'SimpsonGrid1D', 'ClenshawCurtisGrid', 'ClenshawCurtisGrid1D', 'LejaGrid', 'LejaGrid1D', 'GaussGrid',
+                                        'GaussGrid1D', 'GaussLegendreGrid', 'GaussLegendreGrid1D', 'LagrangeGrid', 'LagrangeGrid1D',
+                                        'BSplineGrid', 'BSplineGrid1D'],
+              'sparseSpACE/Integrator.py': ['IntegratorBase', 'IntegratorArbitraryGrid', 'IntegratorArbitraryGridScalarProduct',
+                                              'IntegratorHierarchicalBasisFunctions'],
+              'sparseSpACE/Utils.py': None}
+
+
+def gate_cases(rng):
+    """lesson (k): numeric size gates are read at run time from the source UNDER TEST (scan_gates of props/c02.py with the C08 code
+    path); one oracle-only history just beyond every gate 64 < g <= 2^17 (1D trapezoidal boundary-off and Simpson rules with 2^l + 1 > g
+    points, interior / touching sub-boxes), plus one fixed case larger than anything run before (2^17 + 1 points)."""
+    from . import c02 as _c02
+    old = _c02.GATE_SCOPE
+    try:
+        _c02.GATE_SCOPE = GATE_SCOPE
+        gates = _c02.scan_gates()
+    finally:
+        _c02.GATE_SCOPE = old
+    levels = {}
+    for g_, where in sorted(gates.items()):
+        l = max(7, (g_ - 1).bit_length())          # 2^l + 1 > g
+        if l <= 17:
+            levels.setdefault(l, []).append('%d (%s)' % (g_, where))
+    levels.setdefault(17, []).append('fixed: larger than any earlier case')
+    out = []
+    for l in sorted(levels):
+        for fam, bnd in (('trap', False), ('simpson', True)) if l < 17 else (('trap', False),):
+            dom = rng.choice(DOMAINS[:9])
+            a, b = F(dom[0]), F(dom[1])
+            steps = []
+            for (i, j) in ((1, 3), (0, 2)) if l < 15 else ((1, 3),):
+                st = dict(s=[fs(a + (b - a) * F(i, 4))], e=[fs(a + (b - a) * F(j, 4))], lv=[l], exps=[[0], [1]])
+                steps.append(st)
+            out.append(dict(fam=fam, bnd=bnd, a=[dom[0]], b=[dom[1]], oo=True, gates=levels[l], steps=steps))
+    return out, gates
 
 
 def nominal_degrees(case, npwb, guaranteed=False):
@@ -842,6 +932,8 @@ CORPUS = [
     H('lagrange', True, ['0'], ['4'], [(['1'], ['4'], [2], [[0], [4]])], p=5),
     H('trap', False, [FAR_DOMAIN[0]], [FAR_DOMAIN[1]], [(['34359738369/2'], ['68719476739/4'], [2], [[0], [1]])]),
     H('trap', True, ['0'], ['1'], [(['1/4'], ['1/2'], [2], [[0], [1]])], alias=True),
+    H('trap', False, ['0', '0'], ['1', '1'], [(['1/4', '0'], ['1/2', '1'], [2, 1], [[0, 0], [1, 1]])], args='shared', ct='np',
+      steps_extra=[dict(jmut=True)]),
     # regression histories that must agree: one object swept over several sub-boxes / level vectors
     H('trap', False, ['0'], ['1'], [(['0'], ['1/2'], [2], [[0], [1]]), (['1/4'], ['1/2'], [2], [[0], [1]]),
                                     (['1/2'], ['1'], [3], [[0], [1]]), (['0'], ['1'], [1], [[0], [1]])]),
@@ -1052,6 +1144,10 @@ def hygiene(r):
         st, nm, before, after = r['on']['mutated'][0]
         return [('argument-mutated', dict(argument=nm, stage=st), 'argument object %s was modified by the library during %s: %s -> %s'
                  % (nm, st, before, after))]
+    if r.get('jleak'):
+        return [('caller-mutation-visible', dict(what='+'.join(sorted(r['jleak']))),
+                 'after the caller wrote into objects it had passed EARLIER (without passing them again) the grid answers differently: %s'
+                 % ', '.join(r['jleak']))]
     if r.get('observer_changed'):
         return [('observer-changes-state', dict(observer=r['observer_changed'][0]),
                  'points / weights / counts answered by the grid differ after the public call %s()' % r['observer_changed'][0])]
@@ -1098,6 +1194,8 @@ def model_cases_for(case, r):
     fams, bnds = dimfams(case), dimbnds(case)
     nd = len(case['lv'])
     out = []
+    if case.get('oo'):      # oracle-only (sizes just beyond a gate read from the source, lesson (k))
+        return out
     dims = [[F(a), F(b), F(s), F(e), l] for a, b, s, e, l in zip(case['a'], case['b'], case['s'], case['e'], case['lv'])]
     big = max(case['lv']) >= 8 or (nd >= 2 and sum(case['lv']) >= 10)
     if fam in EQFAM and uniform(case):
@@ -1201,7 +1299,7 @@ def judge(chk, case, st, r, mres, report_case=None):
     fam = case['fam']
     fams, bnds = dimfams(case), dimbnds(case)
     # ---- counts (all families)
-    for d in range(len(case['lv'])):
+    for d in range(len(case['lv']) if not case.get('oo') else 0):
         m = mres.get('cnt%d' % d)
         if m is None or sx.is_err(m):
             diffs.append(('model-count', 'model error %s' % (m,)))
@@ -1476,7 +1574,9 @@ def run(chk):
     chk.coq_obligations(extra_props=_c08_gen.EXTRA_PROPS)
     gen_problem = _c08_gen.diagnose(chk, gen_info)
     n = chk.n(300, 5000)
-    hists = [dict(c) for c in CORPUS] + big_cases(chk.rng) + [gen_case(chk.rng, chk.tier) for _ in range(n)]
+    gh, gates = gate_cases(chk.rng)
+    chk.extra['size_gates_read_from_source'] = {str(k): v for k, v in sorted(gates.items())}
+    hists = [dict(c) for c in CORPUS] + big_cases(chk.rng) + gh + [gen_case(chk.rng, chk.tier) for _ in range(n)]
     impl, per = run_cases(chk, hists)
     # lesson (g): a NEW violation found in a pooled worker may depend on state that EARLIER cases left in that process (class-level
     # caches); every such history is re-run alone in a fresh process - only what reproduces there is a replayable failing input
@@ -1508,6 +1608,7 @@ def run(chk):
         chk.count('integrand_output_length=%d' % h.get('m', 1))
         chk.count('objects_in_history=%d' % (2 if 'a2' in h else 1))
         chk.count('prelude_on_sibling_classes=%s' % ('pre' in h))
+        chk.count('oracle_only_beyond_source_gate=%s' % bool(h.get('oo')))
         chk.count('argument_objects=%s' % h.get('args', 'fresh per call'))
         chk.count('observer_calls_between=%s' % bool(h.get('observers')))
         chk.count('returned_objects_overwritten=%s' % bool(h.get('alias')))
@@ -1523,6 +1624,7 @@ def run(chk):
             mp = max(npwb_of(c))
             chk.count('points_per_dim=%s' % ('<=17' if mp <= 17 else '<=65' if mp <= 65 else '<=257' if mp <= 257 else '>=513'))
             chk.count('level0=%s' % (0 in c['lv']))
+            chk.count('caller_mutates_passed_objects_after_step=%s' % bool(c.get('jmut')))
             chk.count('integrand_scale=2^%d' % c.get('fs', 0))
             chk.count('integrand_components(step)=%d' % c.get('m', 1))
             chk.count('domain=%s' % ('math.isclose would misfire (2^34 / 1+2^-40)' if misfire(c) else 'far (2^20, 2^30)' if any(F(a) >= 2 ** 20 for a in c['a'])
